@@ -360,9 +360,12 @@ def r20_bytestr(src, item, ed, opts):
 def r10_or_pattern_mut(src, item, ed, opts):
     """split `P1 | P2 => B` into one arm per pattern at match arms named in the sidecar
     (or_split = [{n=0}] ordinal among or-pattern arms)"""
-    arms = [n for n in nodes_of(item, "arm") if "or_cases" in n]
+    allarms = [n for n in nodes_of(item, "arm") if "or_cases" in n]
     for sp in opts.get("or_split", []):
-        k = sp["n"]
+        arms = allarms
+        if sp.get("pat_contains"):
+            arms = [n for n in allarms if sp["pat_contains"].replace(" ", "") in re.sub(r"\s+", "", src.text(*n["pat"]))]
+        k = sp.get("n", 0)
         if k >= len(arms):
             if sp.get("optional"):
                 continue  # no or-pattern left to split: the arms are judged as they stand
